@@ -102,6 +102,7 @@ FINDINGS = [
     ),
 ]
 FIXED = [
+    "fixed: property=C01 1666a8a NumPy style, word wrap: a description whose length put the wrap point between 'Defaults' and 'to' (or inside a quoted default with a space) lost or changed its default when read back, or the parser raised (found by the wrap-boundary length sweep and by DOCTRANS_LINE_LENGTH=40)",
     'fixed: property=C01 f4150fc Google style: continuation lines of a multi-line description were emitted at column 0; read back they ended the Args section (description truncated, rest appended to the header, later defaults lost)',
     "fixed: property=C01 fc46805 a quoted string default containing a full stop ('a.b') was cut at the dot when read back from the prose, or the parser raised SyntaxError",
     'fixed: property=C01 26237d2 a string default containing a double quote was emitted as "say "hi"" and the Google/NumPy parsers raised SyntaxError reading it back',
